@@ -162,4 +162,351 @@ theorem offsetW_eq_wrap (w : Nat) (p d : List Int) : offsetW w p d = wrap w (off
   | nil => simp [offsetW, offset, wrap]
   | cons x xs => simp only [offsetW, offset, foldl_offsetStepW]
 
+/-! ## static rows -/
+
+theorem flatten_getElem? {α : Type} (rows : List (List α)) (w : Nat) (hw : ∀ r ∈ rows, r.length = w)
+    (y x : Nat) (r : List α) (v : α) (hr : rows[y]? = some r) (hv : r[x]? = some v) :
+    rows.flatten[y * w + x]? = some v := by
+  induction rows generalizing y with
+  | nil => simp at hr
+  | cons r0 rest ih =>
+    cases y with
+    | zero =>
+      simp only [List.getElem?_cons_zero, Option.some.injEq] at hr
+      subst hr
+      have hx : x < r0.length := by
+        rcases List.getElem?_eq_some_iff.mp hv with ⟨h, _⟩; exact h
+      simp only [List.flatten_cons, Nat.zero_mul, Nat.zero_add]
+      rw [List.getElem?_append_left hx, hv]
+    | succ y =>
+      have h0 : r0.length = w := hw r0 (by simp)
+      simp only [List.getElem?_cons_succ] at hr
+      have := ih (fun r hr' => hw r (by simp [hr'])) y hr
+      simp only [List.flatten_cons]
+      rw [List.getElem?_append_right (by rw [h0, Nat.succ_mul]; omega)]
+      have e : (y + 1) * w + x - r0.length = y * w + x := by rw [h0, Nat.succ_mul]; omega
+      rw [e, this]
+
+theorem length_flatten_uniform {α : Type} (rows : List (List α)) (w : Nat) (hw : ∀ r ∈ rows, r.length = w) :
+    rows.flatten.length = rows.length * w := by
+  induction rows with
+  | nil => simp
+  | cons r0 rest ih =>
+    simp only [List.flatten_cons, List.length_append, List.length_cons, hw r0 (by simp),
+      ih (fun r hr => hw r (by simp [hr])), Nat.succ_mul]
+    omega
+
+theorem mkRows_getUnsafe {α : Type} (r1 : List α) (rs : List (List α)) (hw : ∀ r ∈ rs, r.length = r1.length)
+    (x y : Nat) (r : List α) (v : α) (hr : (r1 :: rs)[y]? = some r) (hv : r[x]? = some v) :
+    (Grid.mkRows r1 rs).getUnsafe [(x : Int), (y : Int)] = .ok v := by
+  have hall : ∀ r ∈ r1 :: rs, r.length = r1.length := by
+    intro r hr'
+    simp only [List.mem_cons] at hr'
+    rcases hr' with rfl | h
+    · rfl
+    · exact hw r h
+  have hget := flatten_getElem? (r1 :: rs) r1.length hall y x r v hr hv
+  have hlt : y * r1.length + x < (r1 :: rs).flatten.length := by
+    rcases List.getElem?_eq_some_iff.mp hget with ⟨h, _⟩; exact h
+  have hoff : offset [(x : Int), (y : Int)] [(r1.length : Int), ((rs.length + 1 : Nat) : Int)]
+      = ((y * r1.length + x : Nat) : Int) := by
+    simp only [offset, List.zip_cons_cons, List.zip_nil_left, List.foldl_cons, List.foldl_nil, offsetStep,
+      Int.one_mul]
+    rw [Int.natCast_add, Int.natCast_mul]
+    omega
+  unfold Grid.getUnsafe Grid.cellIndex Grid.mkRows
+  simp only [hoff, Int.natCast_nonneg, Int.toNat_natCast, hlt, and_self, if_true, bind, Except.bind, hget]
+  rfl
+
+/-! ## special members -/
+
+theorem absSlot_mk {α : Type} (g : Grid α) (m : Bool) : absSlot (⟨g, m⟩ : Slot α) = if m then none else some g := rfl
+
+theorem regStep_refines {α : Type} (st : List (Slot α)) (op : RegOp) :
+    (regStep st op).map (List.map absSlot) = specStep (st.map absSlot) op := by
+  cases op with
+  | copyCtor d s =>
+    simp only [regStep, specStep, List.getElem?_map]
+    by_cases hds : (d == s) = true
+    · simp [hds]
+    · simp only [hds, Bool.false_eq_true, if_false]
+      cases hs : st[s]? with
+      | none => simp
+      | some x =>
+        cases hd : st[d]? with
+        | none => simp
+        | some y =>
+          cases x with
+          | mk g m => cases m <;> simp [absSlot, List.map_set, Grid.copy]
+  | copyAssign d s =>
+    simp only [regStep, specStep, List.getElem?_map]
+    cases hs : st[s]? with
+    | none => simp
+    | some x =>
+      cases hd : st[d]? with
+      | none => simp
+      | some y =>
+        cases x with
+        | mk g m => cases m <;> simp [absSlot, List.map_set, Grid.copy]
+  | moveCtor d s =>
+    simp only [regStep, specStep, List.getElem?_map]
+    by_cases hds : (d == s) = true
+    · simp [hds]
+    · simp only [hds, Bool.false_eq_true, if_false]
+      cases hs : st[s]? with
+      | none => simp
+      | some x =>
+        cases hd : st[d]? with
+        | none => simp
+        | some y =>
+          cases x with
+          | mk g m => cases m <;> simp [absSlot, List.map_set, Grid.moveOut]
+  | moveAssign d s =>
+    simp only [regStep, specStep, List.getElem?_map]
+    cases hs : st[s]? with
+    | none => simp
+    | some x =>
+      cases hd : st[d]? with
+      | none => simp
+      | some y =>
+        by_cases hds : (d == s) = true
+        · simp [hds]
+        · cases x with
+          | mk g m => cases m <;> simp [hds, absSlot, List.map_set, Grid.moveOut]
+  | swapMember a b =>
+    simp only [regStep, specStep, List.getElem?_map]
+    cases ha : st[a]? with
+    | none => simp
+    | some x =>
+      cases hb : st[b]? with
+      | none => simp
+      | some y => simp [absSlot, List.map_set, Grid.swap]
+  | swapFree a b =>
+    simp only [regStep, specStep, List.getElem?_map]
+    cases ha : st[a]? with
+    | none => simp
+    | some x =>
+      cases hb : st[b]? with
+      | none => simp
+      | some y => simp [absSlot, List.map_set, Grid.swap]
+
+theorem regRun_refines {α : Type} (st : List (Slot α)) (prog : List RegOp) :
+    (regRun st prog).map (List.map absSlot) = specRun (st.map absSlot) prog := by
+  induction prog generalizing st with
+  | nil => rfl
+  | cons op ops ih =>
+    simp only [regRun, specRun]
+    rw [← regStep_refines]
+    cases regStep st op with
+    | none => rfl
+    | some st' => simpa using ih st'
+
+/-! ## comparison -/
+
+theorem equalPrefix_of_length {α : Type} [BEq α] [LawfulBEq α] (a b : List α) (h : a.length = b.length) :
+    ∃ r, equalPrefix a b = .ok r ∧ (r = true ↔ a = b) := by
+  induction a generalizing b with
+  | nil => cases b <;> simp_all [equalPrefix]
+  | cons x xs ih =>
+    cases b with
+    | nil => simp at h
+    | cons y ys =>
+      simp only [equalPrefix]
+      by_cases hxy : x = y
+      · subst hxy
+        obtain ⟨r, h1, h2⟩ := ih ys (by simpa using h)
+        exact ⟨r, by simpa using h1, by simpa using h2⟩
+      · have : (x == y) = false := by simpa using hxy
+        exact ⟨false, by simp [this], by simp [hxy]⟩
+
+theorem lexLess_iff (a b : List Int) : lexLess a b = true ↔ LexLt a b := by
+  induction a generalizing b with
+  | nil => cases b <;> simp [lexLess, LexLt]
+  | cons x xs ih =>
+    cases b with
+    | nil => simp [lexLess, LexLt]
+    | cons y ys =>
+      simp only [lexLess, LexLt]
+      by_cases h1 : x < y
+      · simp [h1]
+      · by_cases h2 : y < x
+        · simp only [h1, h2, if_true, if_false, Bool.false_eq_true, false_iff]
+          rintro (h | ⟨h, _⟩) <;> omega
+        · have : x = y := by omega
+          subst this
+          simp [ih ys]
+
+theorem LexLt.irrefl (a : List Int) : ¬ LexLt a a := by
+  induction a with
+  | nil => simp [LexLt]
+  | cons x xs ih => simp only [LexLt]; rintro (h | ⟨_, h⟩); omega; exact ih h
+
+theorem LexLt.trans {a b c : List Int} (h1 : LexLt a b) (h2 : LexLt b c) : LexLt a c := by
+  induction a generalizing b c with
+  | nil =>
+    cases b with
+    | nil => simp [LexLt] at h1
+    | cons y ys => cases c <;> simp_all [LexLt]
+  | cons x xs ih =>
+    cases b with
+    | nil => simp [LexLt] at h1
+    | cons y ys =>
+      cases c with
+      | nil => simp [LexLt] at h2
+      | cons z zs =>
+        simp only [LexLt] at h1 h2 ⊢
+        rcases h1 with h1 | ⟨e1, h1⟩ <;> rcases h2 with h2 | ⟨e2, h2⟩
+        · left; omega
+        · left; omega
+        · left; omega
+        · right; exact ⟨by omega, ih h1 h2⟩
+
+theorem LexLt.total (a b : List Int) : LexLt a b ∨ a = b ∨ LexLt b a := by
+  induction a generalizing b with
+  | nil => cases b <;> simp [LexLt]
+  | cons x xs ih =>
+    cases b with
+    | nil => simp [LexLt]
+    | cons y ys =>
+      simp only [LexLt, List.cons.injEq]
+      rcases ih ys with h | h | h
+      · by_cases h1 : x < y
+        · exact Or.inl (Or.inl h1)
+        · by_cases h2 : y < x
+          · exact Or.inr (Or.inr (Or.inl h2))
+          · exact Or.inl (Or.inr ⟨by omega, h⟩)
+      · by_cases h1 : x < y
+        · exact Or.inl (Or.inl h1)
+        · by_cases h2 : y < x
+          · exact Or.inr (Or.inr (Or.inl h2))
+          · exact Or.inr (Or.inl ⟨by omega, h⟩)
+      · by_cases h1 : x < y
+        · exact Or.inl (Or.inl h1)
+        · by_cases h2 : y < x
+          · exact Or.inr (Or.inr (Or.inl h2))
+          · exact Or.inr (Or.inr (Or.inr ⟨by omega, h⟩))
+
+/-- the order `operator<` computes: sizes first, cells second, both lexicographically -/
+def GridLt (a b : Grid Int) : Prop := LexLt a.size b.size ∨ (a.size = b.size ∧ LexLt a.cells b.cells)
+
+theorem gridLt_iff (a b : Grid Int) : a.lt b = true ↔ GridLt a b := by
+  unfold Grid.lt GridLt
+  by_cases h : a.size = b.size
+  · have : (a.size != b.size) = false := by simp [h]
+    rw [this]
+    simp only [Bool.false_eq_true, if_false, lexLess_iff]
+    constructor
+    · exact fun h' => Or.inr ⟨h, h'⟩
+    · rintro (h' | h')
+      · rw [h] at h'; exact absurd h' (LexLt.irrefl _)
+      · exact h'.2
+  · have : (a.size != b.size) = true := by simp [h]
+    rw [this]
+    simp only [if_true, lexLess_iff, h, false_and, or_false]
+
+theorem specStep_mem {α : Type} (st st' : List (Option (Grid α))) (op : RegOp) (h : specStep st op = some st')
+    (v : Grid α) (hv : some v ∈ st') : some v ∈ st := by
+  have key : ∀ (l : List (Option (Grid α))) (i : Nat) (x : Option (Grid α)), some v ∈ l.set i x →
+      some v ∈ l ∨ some v = x := fun l i x hm => List.mem_or_eq_of_mem_set hm
+  cases op with
+  | copyCtor d s =>
+    simp only [specStep] at h
+    split at h
+    · simp at h
+    · split at h
+      · rename_i w _ hs _
+        injection h with h; subst h
+        rcases key _ _ _ hv with h | h
+        · exact h
+        · rw [h]; exact List.mem_of_getElem? hs
+      · simp at h
+  | copyAssign d s =>
+    simp only [specStep] at h
+    split at h
+    · rename_i w _ hs _
+      injection h with h; subst h
+      rcases key _ _ _ hv with h | h
+      · exact h
+      · rw [h]; exact List.mem_of_getElem? hs
+    · simp at h
+  | moveCtor d s =>
+    simp only [specStep] at h
+    split at h
+    · simp at h
+    · split at h
+      · rename_i w _ hs _
+        injection h with h; subst h
+        rcases key _ _ _ hv with h | h
+        · rcases key _ _ _ h with h | h
+          · exact h
+          · rw [h]; exact List.mem_of_getElem? hs
+        · simp at h
+      · simp at h
+  | moveAssign d s =>
+    simp only [specStep] at h
+    split at h
+    · rename_i x _ hs _
+      split at h
+      · injection h with h; subst h; exact hv
+      · split at h
+        · injection h with h; subst h
+          rcases key _ _ _ hv with h | h
+          · rcases key _ _ _ h with h | h
+            · exact h
+            · rw [h]; exact List.mem_of_getElem? hs
+          · simp at h
+        · simp at h
+    · simp at h
+  | swapMember a b =>
+    simp only [specStep] at h
+    split at h
+    · rename_i x y ha hb
+      injection h with h; subst h
+      rcases key _ _ _ hv with h | h
+      · rcases key _ _ _ h with h | h
+        · exact h
+        · rw [h]; exact List.mem_of_getElem? hb
+      · rw [h]; exact List.mem_of_getElem? ha
+    · simp at h
+  | swapFree a b =>
+    simp only [specStep] at h
+    split at h
+    · rename_i x y ha hb
+      injection h with h; subst h
+      rcases key _ _ _ hv with h | h
+      · rcases key _ _ _ h with h | h
+        · exact h
+        · rw [h]; exact List.mem_of_getElem? hb
+      · rw [h]; exact List.mem_of_getElem? ha
+    · simp at h
+
+theorem specRun_mem {α : Type} (st st' : List (Option (Grid α))) (prog : List RegOp) (h : specRun st prog = some st')
+    (v : Grid α) (hv : some v ∈ st') : some v ∈ st := by
+  induction prog generalizing st with
+  | nil => simp only [specRun, Option.some.injEq] at h; subst h; exact hv
+  | cons op ops ih =>
+    simp only [specRun] at h
+    cases hs : specStep st op with
+    | none => simp [hs] at h
+    | some st1 =>
+      simp only [hs, Option.bind_some] at h
+      exact specStep_mem st st1 op hs v (ih st1 h)
+
+theorem grid_eq_iff {α : Type} (a b : Grid α) : a = b ↔ a.size = b.size ∧ a.cells = b.cells := by
+  cases a; cases b; simp
+
+theorem gridEq_spec {α : Type} [BEq α] [LawfulBEq α] (a b : Grid α)
+    (ha : a.cells.length = (contents a.size).toNat) (hb : b.cells.length = (contents b.size).toNat) :
+    ∃ r, a.eq b = .ok r ∧ (r = true ↔ a = b) := by
+  unfold Grid.eq
+  by_cases h : a.size = b.size
+  · have hl : a.cells.length = b.cells.length := by rw [ha, hb, h]
+    obtain ⟨r, h1, h2⟩ := equalPrefix_of_length a.cells b.cells hl
+    refine ⟨r, by simp [h, h1], ?_⟩
+    rw [h2, grid_eq_iff]
+    simp [h]
+  · refine ⟨false, by simp [h], ?_⟩
+    rw [grid_eq_iff]
+    simp [h]
+
 end Fcppt.C08
